@@ -1136,6 +1136,8 @@ REQUIRED_PROBES = ["sources>=2.independence_checkable", "sources>=2.functional_d
                    "data.dtype:<f4"] + \
                   ["invalid:" + k for k in sorted(INVALID_NEW)] + ["invalid:" + k for k in sorted(INVALID_N)]
 
+REQUIRED_PROBES = REQUIRED_PROBES + ["thread.calls_outside_main_thread", "fault.died_in_a_numpy_call(np.*)", "sweep.np_star_positions", "construction_died_in_a_numpy_call", "data.environments_share_upstream_columns", "net.dropped", "seed.given_as_Generator"]
+
 
 def simplify(op):
     if op.get("op") == "net.sample":
